@@ -9,6 +9,7 @@ import (
 	"github.com/lni/dragonboat/v4/internal/logdb"
 	"github.com/lni/dragonboat/v4/internal/rsm"
 	"github.com/lni/dragonboat/v4/internal/server"
+	"github.com/lni/dragonboat/v4/internal/transport"
 	"github.com/lni/dragonboat/v4/internal/vfs"
 	"github.com/lni/dragonboat/v4/raftio"
 	pb "github.com/lni/dragonboat/v4/raftpb"
@@ -150,4 +151,54 @@ func (v *VerifC08Node) RequestStream(to uint64, sink pb.IChunkSink) (accepted bo
 	v.n.streamDone()
 	v.n.processStreamStatus()
 	return true, nil
+}
+
+// verifC08Transport records what NodeHost.sendMessage asks the transport to do.
+type verifC08Transport struct {
+	snapshots []pb.Message
+}
+
+func (t *verifC08Transport) Name() string         { return "verif-c08" }
+func (t *verifC08Transport) Send(pb.Message) bool { return true }
+func (t *verifC08Transport) SendSnapshot(m pb.Message) bool {
+	t.snapshots = append(t.snapshots, m)
+	return true
+}
+func (t *verifC08Transport) GetStreamSink(uint64, uint64) *transport.Sink { return nil }
+func (t *verifC08Transport) Close() error                                 { return nil }
+
+// SendInstallSnapshot is raft on this replica asking for replica `to` to be
+// sent a snapshot: the InstallSnapshot message raft builds carries the
+// LogReader's snapshot record, and the real NodeHost.sendMessage decides
+// whether the recorded file goes to the transport (files: the messages handed
+// to ITransport.SendSnapshot) or a Stream task is pushed for the apply worker
+// (stream = true; the task has been taken off the queue). hasRecord = false:
+// the replica has no snapshot record, raft can not build the message.
+func (v *VerifC08Node) SendInstallSnapshot(to uint64) (hasRecord bool, files []pb.Message, stream bool) {
+	ss := v.n.logReader.Snapshot()
+	if pb.IsEmptySnapshot(ss) {
+		return false, nil, false
+	}
+	tr := &verifC08Transport{}
+	nh := &NodeHost{transport: tr}
+	nh.events.sys = &sysEventListener{}
+	nh.mu.shards.Store(v.n.shardID, v.n)
+	nh.sendMessage(pb.Message{
+		Type:     pb.InstallSnapshot,
+		ShardID:  v.n.shardID,
+		From:     v.n.replicaID,
+		To:       to,
+		Snapshot: ss,
+	})
+	for {
+		t, ok := v.n.toApplyQ.Get()
+		if !ok {
+			break
+		}
+		if !t.Stream || t.ReplicaID != to {
+			panic("verif: unexpected task pushed by sendMessage")
+		}
+		stream = true
+	}
+	return true, tr.snapshots, stream
 }
